@@ -1037,7 +1037,7 @@ func (w *World) crash(dmg []damage) {
 		time.Sleep(tickQuantum)
 		synctest.Wait()
 	}
-	w.drainClient(old)
+	w.drainClient(old, w.sch.gen-1) // part of the dead process: no disk access, no observations
 	w.sch.mu.Lock()
 	w.sch.drain = false
 	w.sch.mu.Unlock()
@@ -1305,17 +1305,17 @@ func (w *World) teardown() {
 		time.Sleep(5 * tickQuantum)
 		synctest.Wait()
 	}
-	w.drainClient(w.client)
+	w.drainClient(w.client, w.sch.gen)
 }
 
 // drainClient does what an application does after Close: it calls ReadSlices
 // until ErrClosed comes back. Only that releases requests still waiting for
 // their response, and a goroutine left waiting keeps its whole world alive.
-func (w *World) drainClient(c *mqtt.Client) {
+func (w *World) drainClient(c *mqtt.Client, gen int) {
 	if c == nil {
 		return
 	}
-	w.sch.spawnFree("drain-readslices", func() {
+	w.sch.spawnFreeGen("drain-readslices", gen, func() {
 		defer func() { recover() }()
 		for i := 0; i < 6; i++ {
 			_, _, err := c.ReadSlices()
